@@ -3,6 +3,7 @@ package props
 import (
 	"encoding/hex"
 	"fmt"
+	"net"
 	"net/netip"
 
 	"harness/core"
@@ -39,7 +40,7 @@ func trunc(b []byte, n int) []byte {
 
 func c15Run(c *core.Ctx, args []string) {
 	c.Res.Level = "exploration"
-	c.Res.Rule = "every byte string of length 0..3; every string over {00,01,7f,80,fe,ff} of length<=8 (quick: <=6); for each length L in the tier's range, carriers {00..,ff..,00ff..,ff00..} with every single-word perturbation by {0001,00ff,ff00,ffff,8000} at every word position; every 2-way split of each carrier recombined by the reference; IPv4 headers completed by SetPayload/AppendPayload and ICMPv4/ICMPv6 frames emitted by the send functions verified with the RFC 1071 reference. distinct = distinct byte strings; all are non-trivial except the empty string"
+	c.Res.Rule = "every byte string of length 0..3; every string over {00,01,7f,80,fe,ff} of length<=8 (quick: <=6); for each length L in the tier's range, carriers {00..,ff..,00ff..,ff00..} with every single-word perturbation by {0001,00ff,ff00,ffff,8000} at every word position; every 2-way split of each carrier recombined by the reference; IPv4 headers (address, ttl, protocol, TOS and identification alphabets) completed by SetPayload/AppendPayload (also a second time, over a stale checksum field) and ICMPv4/ICMPv6 frames (incl. router advertisements of up to 408 bytes) emitted by the send functions verified with the RFC 1071 reference. distinct = distinct byte strings; all are non-trivial except the empty string"
 	c.Res.Assumptions = []string{"reference: RFC 1071 big-endian word sum with end-around carry, byte-swapped into the library's storage order", "lengths above 1522 and byte patterns outside the stated alphabets are not explored"}
 	thorough := c.Thorough()
 	buf4 := make([]byte, 0, 4)
@@ -196,9 +197,14 @@ func c15Frames(c *core.Ctx) {
 						for i := range payload {
 							payload[i] = byte(i * 7)
 						}
-						for variant := 0; variant < 2; variant++ {
+						for variant := 0; variant < 2*12; variant++ {
 							buf := make([]byte, 1600)
 							ip := packet.EncodeIP4(buf[:1600], ttl, src, dst)
+							// the caller may set the remaining header fields before completing the header
+							tos := []byte{0xc0, 0x00, 0x01, 0x02, 0x03, 0xff}[variant/2%6]
+							ident := []uint16{0, 0xffff}[variant/12]
+							buf[1], buf[4], buf[5] = tos, byte(ident>>8), byte(ident)
+							variant := variant % 2
 							var out packet.IP4
 							if variant == 0 {
 								var err error
@@ -223,6 +229,37 @@ func c15Frames(c *core.Ctx) {
 			}
 		}
 	}
+	// completing a header a second time (a reused buffer, a header taken from a received packet): whatever the checksum
+	// field held before must not be summed in
+	for _, plen := range []int{0, 1, 8, 255} {
+		for _, proto := range []byte{1, 6, 17} {
+			for order := 0; order < 4; order++ {
+				buf := make([]byte, 1600)
+				ip := packet.EncodeIP4(buf[:1600], 64, ips[1], ips[2])
+				p1, p2 := make([]byte, plen), make([]byte, plen+3)
+				var out packet.IP4
+				switch order {
+				case 0: // Set, Set
+					out = ip.SetPayload(p1, 17)
+					out = packet.IP4(out[:20]).SetPayload(p2, proto)
+				case 1: // Append, Set
+					out, _ = ip.AppendPayload(p1, 17)
+					out = packet.IP4(out[:20]).SetPayload(p2, proto)
+				case 2: // Set, Append
+					out = ip.SetPayload(p1, 17)
+					out, _ = packet.IP4(out[:20]).AppendPayload(p2, proto)
+				case 3: // a dirty checksum field
+					buf[10], buf[11] = 0xde, 0xad
+					out = ip.SetPayload(p2, proto)
+				}
+				c.Count("evaluations", 1)
+				c.Count("ip4_headers", 1)
+				if out == nil || !refnet.VerifiesIP4Header(out[:20]) {
+					c.Violate("ip4-header-checksum|recompleted", fmt.Sprintf("IPv4 header completed a second time (case %d) does not verify: %x", order, buf[:20]), c15Replay{Kind: "ip4hdr", Hex: hex.EncodeToString(buf[:20])})
+				}
+			}
+		}
+	}
 	// ICMP frames from the real send paths
 	s, conn := env.NewSession(env.DefaultNIC(), packet.Config{})
 	defer s.Close()
@@ -241,6 +278,12 @@ func c15Frames(c *core.Ctx) {
 	for _, d := range dst6 {
 		s.ICMP6SendNeighbourSolicitation(hostLLA, d, d.IP)
 		s.ICMP6SendNeighborAdvertisement(hostLLA, d, packet.Addr{MAC: env.HostMAC, IP: env.RouterLLA})
+	}
+	// long ICMPv6 messages: router advertisements with 1..12 prefixes (messages of 56..408 bytes)
+	var prefixes []packet.PrefixInformation
+	for n := 1; n <= 12; n++ {
+		prefixes = append(prefixes, packet.PrefixInformation{PrefixLength: 64, Prefix: net.ParseIP(fmt.Sprintf("2001:db8:%x::", n))})
+		s.ICMP6SendRouterAdvertisement(prefixes, nil, packet.IP6AllNodesAddr)
 	}
 	for _, f := range conn.Take() {
 		c.Count("evaluations", 1)
